@@ -63,6 +63,8 @@ CONSTANTS
   KeyTest,        \* TRUE: Invalidates compares keys (the code); FALSE: negative control
   MaxDel,         \* bound on KV.Delete calls; 0 = key deletion not exercised
   ObsoleteTimeout,\* ObsoleteEntriesTimeout in seconds
+  LockKeys,       \* keys that hold a partition ring whose partitions (odd entry ids) carry a state-change lock: a second,
+                  \* independently versioned component (lk, lts) of the entry; {} = no locks anywhere (lk = FALSE, lts = -1)
   ConsumeNet,     \* TRUE: a delivered packet leaves the network unless the adversary pays for a duplicate
   Ideal,          \* TRUE: what the property demands (= the code since the fix of finding F7); FALSE: the code before that fix
   Ghost,          \* maintain the ghost variables inval / fwd
@@ -81,8 +83,11 @@ Ky(u) == u[2]
 UnitsOf(n) == {<<n, k>> : k \in Key}
 Inst == 1..NI
 LEFT == "LEFT"
-Absent == [ts |-> -1, st |-> "ABSENT"]
-Entry  == [ts : 0..MaxClock, st : LiveStates \cup {LEFT}]
+Absent == [ts |-> -1, st |-> "ABSENT", lk |-> FALSE, lts |-> -1]
+Locks  == LockKeys # {}
+Entry  == [ts : 0..MaxClock, st : LiveStates \cup {LEFT},
+           lk : IF Locks THEN BOOLEAN ELSE {FALSE}, lts : IF Locks THEN -1..MaxClock ELSE {-1}]
+New(t, s) == [ts |-> t, st |-> s, lk |-> FALSE, lts |-> -1]
 Desc   == [Inst -> Entry \cup {Absent}]
 Empty  == TLCEval([i \in Inst |-> Absent])
 Ids(d) == {i \in Inst : d[i] # Absent}
@@ -136,14 +141,21 @@ Only(S) == CHOOSE x \in S : TRUE
 
 (* Desc.mergeWithTime (ring.Desc without token conflicts; PartitionRingDesc partitions / owners): *)
 (* per entry [r = resulting entry, u = updated]                                                   *)
+(* The state-change lock of a partition (PartitionDesc.StateChangeLocked / ...LockedTimestamp) is a second      *)
+(* component of the entry with its own timestamp: the newer state and the newer lock are taken independently, *)
+(* so a delayed message with a newer lock but an older state changes the lock only - never the tombstone.     *)
 EntryMerge(me, ot, cas, now) ==
-  IF /\ ot # Absent
-     /\ \/ me = Absent
-        \/ ot.ts > me.ts
-        \/ ot.ts = me.ts /\ me.st # LEFT /\ ot.st = LEFT
+  IF ot # Absent /\ me = Absent
   THEN [r |-> ot, u |-> TRUE]
-  ELSE IF cas /\ ot = Absent /\ me # Absent /\ me.st # LEFT
-       THEN [r |-> [ts |-> now, st |-> LEFT], u |-> TRUE]      \* missing from a local CAS result: tombstone stamped now
+  ELSE IF ot # Absent
+  THEN LET stw == \/ ot.ts > me.ts
+                  \/ ot.ts = me.ts /\ me.st # LEFT /\ ot.st = LEFT
+           lkw == ot.lts > me.lts
+       IN [r |-> [ts |-> IF stw THEN ot.ts ELSE me.ts, st |-> IF stw THEN ot.st ELSE me.st,
+                  lk |-> IF lkw THEN ot.lk ELSE me.lk, lts |-> IF lkw THEN ot.lts ELSE me.lts],
+           u |-> stw \/ lkw]
+  ELSE IF cas /\ me # Absent /\ me.st # LEFT
+       THEN [r |-> [me EXCEPT !.ts = now, !.st = LEFT], u |-> TRUE]      \* missing from a local CAS result: tombstone stamped now (the lock stays)
        ELSE [r |-> me, u |-> FALSE]
 Merge(mine, other, cas, now) ==
   Only({ [result |-> TLCEval([i \in Inst |-> pe[i].r]),
@@ -207,13 +219,18 @@ PW0 == [called |-> FALSE, last |-> Empty]
 WK0 == [st |-> "idle", m |-> Plain(0, Empty), ver |-> 0]
 
 (* the functions handed to CAS *)
+(* "lock" = UpdatePartitionStateChangeLock(i, ~locked): toggles the lock of a partition (odd id of a key in LockKeys) *)
 Fn == [op : {"hb", "rm"}, i : Inst, s : {"-"}] \cup [op : {"set"}, i : Inst, s : LiveStates]
+      \cup [op : {"lock"}, i : {j \in Inst : Locks /\ j % 2 = 1}, s : {"-"}]
+Lockable(k, f) == f.op # "lock" \/ (k \in LockKeys /\ f.i % 2 = 1)
 Apply(f, in, now) ==
-  CASE f.op = "hb"  -> [ok |-> TRUE, d |-> [in EXCEPT ![f.i] = IF in[f.i] = Absent THEN [ts |-> now, st |-> "ACTIVE"]
-                                                                 ELSE [ts |-> now, st |-> in[f.i].st]]]
+  CASE f.op = "hb"  -> [ok |-> TRUE, d |-> [in EXCEPT ![f.i] = IF in[f.i] = Absent THEN New(now, "ACTIVE")
+                                                                 ELSE [in[f.i] EXCEPT !.ts = now]]]
     [] f.op = "set" -> IF in[f.i] = Absent THEN [ok |-> FALSE, d |-> in]
-                       ELSE [ok |-> TRUE, d |-> [in EXCEPT ![f.i] = [ts |-> now, st |-> f.s]]]
+                       ELSE [ok |-> TRUE, d |-> [in EXCEPT ![f.i] = [in[f.i] EXCEPT !.ts = now, !.st = f.s]]]
     [] f.op = "rm"  -> [ok |-> TRUE, d |-> [in EXCEPT ![f.i] = Absent]]
+    [] f.op = "lock" -> IF in[f.i] = Absent THEN [ok |-> FALSE, d |-> in]
+                        ELSE [ok |-> TRUE, d |-> [in EXCEPT ![f.i] = [in[f.i] EXCEPT !.lk = ~in[f.i].lk, !.lts = now]]]
 
 -----------------------------------------------------------------------------
 (* effect of one merge result r on unit u when merge, notification and QueueBroadcast happen in one step: *)
@@ -277,12 +294,16 @@ Tick ==
 (* Workload proviso (the one of C03): an entry never gets two different live contents with the same  *)
 (* timestamp - in dskit an entry is written by its own lifecycler only, and a second write within the *)
 (* same second is "no change".  Removals are exempt (the tombstone wins ties).                        *)
+(* The same for the lock component: one lock content per (partition, second).                          *)
 OneContentPerSecond(k, chg) ==
   \A i \in Ids(chg) : \A w \in written :
-     (w[1] = k /\ w[2] = i /\ w[3].ts = chg[i].ts /\ w[3].st # LEFT /\ chg[i].st # LEFT) => w[3] = chg[i]
+     (w[1] = k /\ w[2] = i) =>
+        /\ (w[3].ts = chg[i].ts /\ w[3].st # LEFT /\ chg[i].st # LEFT) => w[3].st = chg[i].st
+        /\ (w[3].lts = chg[i].lts) => w[3].lk = chg[i].lk
 
 CasN(u, f, note) ==
   /\ ncas < MaxCas
+  /\ Lockable(Ky(u), f)
   /\ ncas' = ncas + 1
   /\ UNCHANGED <<nfault, ndel>>
   /\ \E ap \in {Apply(f, Read(u), clock)} :
@@ -699,13 +720,68 @@ XKeyStep ==
      IN CASE k = 1 -> \E k2 \in {RE(Key \ {hist[1].key})} : Cas(<<a, k2>>, Hb(hist[1].f.i))
           [] k = 2 -> Gossip(a)
 
-Free == RunOK /\ ~InRelay /\ ~InReorder /\ ~InTie /\ ~InXKey
+(* unseen (N >= 2, NI >= 2, MaxClock >= 1): replica b holds the key but has never heard of entry i (it knows another *)
+(* entry j); the tombstone of i reaches b BEFORE the earlier live message of i.  b must store the tombstone (and     *)
+(* forward it), so that the late live message cannot create the entry.                                              *)
+InUnseen == Script("unseen", 8)
+UnseenStart == Start(N >= 2 /\ NI >= 2 /\ MaxClock >= 1)
+               /\ \E a \in {RE(Node)}, kk \in {RE(Key)}, i \in {RE(Inst)} : CasN(<<a, kk>>, Hb(i), "unseen")
+UnseenStep ==
+  /\ phase = "run" /\ InUnseen
+  /\ LET k == Len(hist)
+         a == hist[1].n
+         kk == hist[1].key
+         i == hist[1].f.i
+         live == {x \in sent : x.key = kk /\ x.chg[i] # Absent /\ x.chg[i].st # LEFT}
+         tomb == {x \in sent : x.key = kk /\ x.chg[i].st = LEFT}
+     IN CASE k = 1 -> Gossip(a)
+          [] k = 2 -> Tick
+          [] k = 3 -> Cas(<<a, kk>>, [op |-> "rm", i |-> i, s |-> "-"])
+          [] k = 4 -> Gossip(a)
+          [] k = 5 -> \E b \in {RE(Node \ {a})}, j \in {RE(Inst \ {i})} : Cas(<<b, kk>>, Hb(j))
+          [] k = 6 -> \E p \in tomb : Deliver(p, hist[6].n, FALSE)
+          [] k = 7 -> \E p \in live : Deliver(p, hist[6].n, FALSE)
+
+(* lock (a key in LockKeys, N >= 2, MaxClock >= 2): node a changes the state-change lock of partition i (message m1: *)
+(* old state, new lock timestamp); node b, which has not seen m1, removes the partition later (tombstone with the   *)
+(* old lock); then the delayed m1 reaches b (and, if N >= 3, a replica c that received the tombstone first).  The   *)
+(* lock may change - the tombstone must stay.                                                                      *)
+LockLen == IF N >= 3 THEN 13 ELSE 10
+InLock == Script("lock", LockLen)
+LockStart == Start(Locks /\ N >= 2 /\ MaxClock >= 2)
+             /\ \E a \in {RE(Node)}, kk \in {RE(LockKeys)}, i \in {RE({j \in Inst : j % 2 = 1})} : CasN(<<a, kk>>, Hb(i), "lock")
+LockStep ==
+  /\ phase = "run" /\ InLock
+  /\ LET k == Len(hist)
+         a == hist[1].n
+         kk == hist[1].key
+         i == hist[1].f.i
+         live == {x \in sent : x.key = kk /\ x.chg[i] # Absent /\ x.chg[i].st # LEFT /\ x.chg[i].lts = -1}
+         lckm == {x \in sent : x.key = kk /\ x.chg[i] # Absent /\ x.chg[i].st # LEFT /\ x.chg[i].lts # -1}
+         tomb == {x \in sent : x.key = kk /\ x.chg[i].st = LEFT}
+     IN CASE k = 1 -> Gossip(a)
+          [] k = 2 -> \E b \in {RE(Node \ {a})}, p \in live : Deliver(p, b, FALSE)
+          [] k = 3 -> Tick
+          [] k = 4 -> Cas(<<a, kk>>, [op |-> "lock", i |-> i, s |-> "-"])
+          [] k = 5 -> Gossip(a)
+          [] k = 6 -> Tick
+          [] k = 7 -> Cas(<<hist[3].n, kk>>, [op |-> "rm", i |-> i, s |-> "-"])
+          [] k = 8 -> Gossip(hist[3].n)
+          [] k = 9 -> \E p \in lckm : Deliver(p, hist[3].n, FALSE)
+          [] k = 10 -> \E c \in Node \ {a, hist[3].n}, p \in tomb : Deliver(p, c, FALSE)
+          [] k = 11 -> \E p \in lckm : Deliver(p, hist[11].n, FALSE)
+          [] k = 12 -> Gossip(hist[11].n)
+
+Free == RunOK /\ ~InRelay /\ ~InReorder /\ ~InTie /\ ~InXKey /\ ~InUnseen /\ ~InLock
 GU == GateNodes \X Key
 SimNext ==
   \/ RelayStart \/ RelayStart \/ RelayStep
   \/ ReorderStart \/ ReorderStep
   \/ TieStart \/ TieStart \/ TieStart \/ TieStart \/ TieStep
   \/ XKeyStart \/ XKeyStart \/ XKeyStep
+  \/ UnseenStart \/ UnseenStart \/ UnseenStep
+  \/ LockStart \/ LockStart \/ LockStart \/ LockStart \/ LockStep
+  \/ Free /\ Locks /\ \E n \in {RE(Node)}, kk \in {RE(LockKeys)}, i \in {RE({j \in Inst : j % 2 = 1})} : Cas(<<n, kk>>, [op |-> "lock", i |-> i, s |-> "-"])
   \/ Free /\ Tick
   \/ Free /\ sent # {} /\ \E p \in {RE(sent)}, n \in {RE(Node)} : Deliver(p, n, FALSE)
   \/ Free /\ sent # {} /\ \E p \in {RE(sent)}, n \in {RE(Node)} : Deliver(p, n, FALSE)
@@ -815,10 +891,14 @@ OnlyChangesForwardedStep ==   \* the change a merge hands on is exactly what cha
                                          \/ store'[x.u].val[i] = Absent   \* collected, or killed by an expired tombstone
 OnlyChangesForwarded == [][OnlyChangesForwardedStep]_vars
 
+(* componentwise: the state and the lock of a partition are merged independently, so a stored entry may combine *)
+(* the state one CAS wrote with the lock another CAS wrote                                                      *)
+WasWritten(k, i, e) == /\ \E w \in written : w[1] = k /\ w[2] = i /\ w[3].ts = e.ts /\ w[3].st = e.st
+                       /\ \E w \in written : w[1] = k /\ w[2] = i /\ w[3].lts = e.lts /\ w[3].lk = e.lk
 NoInventedContent ==
-  \A u \in Unit, i \in Inst : store[u].val[i] # Absent => <<Ky(u), i, store[u].val[i]>> \in written
+  \A u \in Unit, i \in Inst : store[u].val[i] # Absent => WasWritten(Ky(u), i, store[u].val[i])
 SentIsWritten ==
-  \A p \in sent : \A i \in Ids(p.chg) : <<p.key, i, p.chg[i]>> \in written
+  \A p \in sent : \A i \in Ids(p.chg) : WasWritten(p.key, i, p.chg[i])
 
 (* a watcher that is not blocked in its callback has seen the value readers see - except that the removal *)
 (* of an obsolete deleted key (Cleanup) is not announced (observation O3)                                  *)
